@@ -98,65 +98,18 @@ Theorem exact_delegation_nsec_sound :
 Proof. exact verify_delegation_nsec_sound. Qed.
 Print Assumptions exact_delegation_nsec_sound.
 
-(* exact_nsec_sound for VerifyNameErrorNSEC — full statement:
-     verify_nameerror_nsec q set = E_ok -> ~ exists_in z q
-   REFUTED (below).  Proved part: *)
-Theorem exact_nameerror_nsec_partial :
+(* exact_nsec_sound, full statement, for the code as it is since fix 130ba3b (before it the statement
+   was refuted: Proofs_NsecTop.old_exact_*_refuted keep the witnesses as regression Examples) *)
+Theorem exact_nameerror_nsec_sound :
   forall z, zone_wf z -> forall set, (forall r, In r set -> genuine z r) ->
-  forall q, is_prefix (z_apex z) q -> verify_nameerror_nsec q set = E_ok ->
-    ~ is_ent z q -> ~ below_cut z q ->
-    (forall ce, closest_encloser z q ce -> ~ is_ent z (ce ++ [star])) ->
-    (z_apex z = [] -> ~ exists_direct z [star]) ->
-    ~ exists_in z q.
-Proof. exact Proofs_NsecTop.exact_nameerror_nsec_partial. Qed.
-Print Assumptions exact_nameerror_nsec_partial.
-
-Theorem exact_nameerror_nsec_refuted :
-  exists z set q, zone_wf z /\ (forall r, In r set -> genuine z r) /\ is_prefix (z_apex z) q /\
-                  verify_nameerror_nsec q set = E_ok /\ exists_in z q /\ is_ent z q.
-Proof. exact Proofs_NsecTop.exact_nameerror_nsec_refuted. Qed.
-Print Assumptions exact_nameerror_nsec_refuted.
-Theorem exact_nameerror_nsec_below_cut_refuted :
-  exists z set q, zone_wf z /\ (forall r, In r set -> genuine z r) /\ is_prefix (z_apex z) q /\
-                  verify_nameerror_nsec q set = E_ok /\ exists_in z q /\ below_cut z q.
-Proof. exact exact_nameerror_nsec_refuted_below_cut. Qed.
-Print Assumptions exact_nameerror_nsec_below_cut_refuted.
-Theorem exact_nameerror_nsec_wildcard_ent_refuted :
-  exists z set q, zone_wf z /\ (forall r, In r set -> genuine z r) /\ is_prefix (z_apex z) q /\
-                  verify_nameerror_nsec q set = E_ok /\ exists_in z q /\ wildcard_match z q.
-Proof. exact exact_nameerror_nsec_refuted_wildcard_ent. Qed.
-Print Assumptions exact_nameerror_nsec_wildcard_ent_refuted.
-
-(* exact_nsec_sound for VerifyNODATANSEC — full statement:
-     verify_nodata_nsec q qtype set = E_ok -> nodata_true z q qtype
-   REFUTED (below).  Proved part: unless the answering node is a delegation point and qtype <> DS *)
-Theorem exact_nodata_nsec_partial :
+  forall q, is_prefix (z_apex z) q -> verify_nameerror_nsec q set = E_ok -> ~ exists_in z q.
+Proof. exact Proofs_NsecTop.exact_nameerror_nsec_sound. Qed.
+Print Assumptions exact_nameerror_nsec_sound.
+Theorem exact_nodata_nsec_sound :
   forall z, zone_wf z -> forall set, (forall r, In r set -> genuine z r) ->
-  forall q qtype, is_prefix (z_apex z) q -> verify_nodata_nsec q qtype set = E_ok ->
-    (qtype <> T_DS -> forall n tys, In (n, tys) (z_nodes z) ->
-        ~ (In T_NS tys /\ ~ In T_SOA tys) \/ (n <> q /\ forall ce, n <> ce ++ [star])) ->
-    nodata_true z q qtype.
-Proof. exact Proofs_NsecTop.exact_nodata_nsec_partial. Qed.
-Print Assumptions exact_nodata_nsec_partial.
-
-Theorem exact_nodata_nsec_refuted :
-  exists z set q qtype, zone_wf z /\ (forall r, In r set -> genuine z r) /\ is_prefix (z_apex z) q /\
-                        verify_nodata_nsec q qtype set = E_ok /\ ~ nodata_true z q qtype.
-Proof. exact Proofs_NsecTop.exact_nodata_nsec_refuted. Qed.
-Print Assumptions exact_nodata_nsec_refuted.
-
-(* ---- with props/C02/fix.patch applied (the model variants the check selects when it finds the
-   patch in the source) both exact NSEC verifiers satisfy the full statement *)
-Theorem exact_nameerror_nsec_fixed_sound :
-  forall z, zone_wf z -> forall set, (forall r, In r set -> genuine z r) ->
-  forall q, is_prefix (z_apex z) q -> verify_nameerror_nsec_fixed q set = E_ok -> ~ exists_in z q.
-Proof. exact Proofs_NsecTop.exact_nameerror_nsec_fixed_sound. Qed.
-Print Assumptions exact_nameerror_nsec_fixed_sound.
-Theorem exact_nodata_nsec_fixed_sound :
-  forall z, zone_wf z -> forall set, (forall r, In r set -> genuine z r) ->
-  forall q qtype, is_prefix (z_apex z) q -> verify_nodata_nsec_fixed q qtype set = E_ok -> nodata_true z q qtype.
-Proof. exact Proofs_NsecTop.exact_nodata_nsec_fixed_sound. Qed.
-Print Assumptions exact_nodata_nsec_fixed_sound.
+  forall q qtype, is_prefix (z_apex z) q -> verify_nodata_nsec q qtype set = E_ok -> nodata_true z q qtype.
+Proof. exact Proofs_NsecTop.exact_nodata_nsec_sound. Qed.
+Print Assumptions exact_nodata_nsec_sound.
 
 (* ---- NSEC3, for an abstract collision-free hash H (nsec3_world: H injective, zone well formed,
    every hashed name exists, the hash table handed to the model is H); records are arbitrary
@@ -197,16 +150,17 @@ Theorem nsec3_nameerror_sound_partial :
 Proof. exact nsec3_nameerror_sound_pk. Qed.
 Print Assumptions nsec3_nameerror_sound_partial.
 
-(* nsec3_sound for VerifyNODATAForZoneWithWork.  With fix.patch (fx = true) the side condition on
-   q disappears; on the current code (fx = false) it is exactly finding nsec3-nodata-at-delegation. *)
-Theorem nsec3_nodata_sound_partial :
-  forall H z hashed tab recs fx q qtype qclass signer,
+(* nsec3_sound for VerifyNODATAForZoneWithWork (current code, since fix 130ba3b; wildcard owners
+   are assumed not to be delegation points, RFC 4592 §4.2) *)
+Theorem nsec3_nodata_sound :
+  forall H z hashed tab recs q qtype qclass signer,
     nsec3_world H z hashed tab -> optout_masks_are_bit0 -> optout_discipline z hashed ->
     all_genuine3 H z hashed recs -> wildcards_not_delegations z ->
-    (fx = false -> qtype <> T_DS -> forall tys, In (q, tys) (z_nodes z) -> ~ (In T_NS tys /\ ~ In T_SOA tys)) ->
-    verify_nodata_nsec3_gen fx q qtype qclass recs signer tab = (E_ok, true) -> nodata_true z q qtype.
-Proof. exact nsec3_nodata_sound_pk. Qed.
-Print Assumptions nsec3_nodata_sound_partial.
+    verify_nodata_nsec3 q qtype qclass recs signer tab = (E_ok, true) -> nodata_true z q qtype.
+Proof. exact (fun H z hashed tab recs q qtype qclass signer W M D G Wd =>
+                nsec3_nodata_sound_pk H z hashed tab recs true q qtype qclass signer W M D G Wd
+                  (fun E => False_ind _ (Bool.diff_true_false E))). Qed.
+Print Assumptions nsec3_nodata_sound.
 
 (* nsec3_sound for VerifyDelegationForZoneWithWork: "no DS, delegation is insecure" *)
 Theorem nsec3_delegation_sound :
